@@ -438,6 +438,9 @@ theorem newLocal_len (st : St) (x : String) (h : st.scopes ≠ []) : (st.newLoca
 theorem ne_nil_of_length {α : Type} {l m : List α} (h : l.length = m.length) (hm : m ≠ []) : l ≠ [] := by
   intro e; subst e; simp at h; exact hm (List.length_eq_zero_iff.mp h.symm)
 
+theorem newLocal_ne (st : St) (x : String) : (st.newLocal x).scopes ≠ [] := by
+  unfold St.newLocal; cases st.scopes <;> simp
+
 /-- the local counter never decreases, the scope stack keeps its depth. -/
 theorem compS_mono (cx : Ctx) : ∀ (s : Stmt) (lp : LoopCtx) (st : St), st.scopes ≠ [] →
     st.cnt ≤ (compS cx lp s st).2.cnt ∧ (compS cx lp s st).2.scopes.length = st.scopes.length := by
@@ -504,6 +507,12 @@ theorem compS_mono (cx : Ctx) : ∀ (s : Stmt) (lp : LoopCtx) (st : St), st.scop
     have hp := ihp lp (forSt3 cx lp init cond body st) hne3
     exact ⟨by simp; omega, by simp [hp.2, h3l]⟩
   | ret e => intro lp st _; cases e <;> simp [compS]
+  | ret2 e1 e2 => intro lp st _; simp [compS]
+  | define2 x y e =>
+    intro lp st hne
+    simp only [compS]
+    refine ⟨by simp [newLocal_cnt]; omega, ?_⟩
+    rw [newLocal_len _ x (newLocal_ne _ y)]; exact newLocal_len _ y hne
   | brk => intro lp st _; simp [compS]
   | cont => intro lp st _; simp [compS]
   | block body ih =>
@@ -570,6 +579,7 @@ def Simple : Stmt → Prop
   | .ret none => True
   | .ret (some e) => NoCall e
   | .brk | .cont => False
+  | .ret2 _ _ | .define2 _ _ _ => False
   | .block b => Simple b
   | .labeled _ _ | .brkL _ | .contL _ | .switchS _ _ _ | .caseS _ _ _ _ _ | .defaultS _ => False
 
@@ -695,6 +705,8 @@ theorem compS_wf (cx : Ctx) : ∀ (s : Stmt) (lp : LoopCtx) (st : St), Wf st →
     have hlp := (compS_mono cx post lp (forSt3 cx lp init cond body st) h3.nonempty).2
     exact wf_pop hp (by omega)
   | ret e => intro lp st h; cases e <;> simp only [compS] <;> first | exact h | exact wf_nl h _
+  | ret2 e1 e2 => intro lp st h; simp only [compS]; exact wf_nl h _
+  | define2 x y e => intro lp st h; simp only [compS]; exact wf_newLocal (wf_newLocal (wf_nl h _) y) x
   | brk => intro lp st h; simpa [compS] using h
   | cont => intro lp st h; simpa [compS] using h
   | block body ih =>
@@ -767,7 +779,7 @@ open NeoModel.MiniVm NeoModel.MiniVm.Asm NeoModel.MiniGo NeoModel.Compile
 def StmtPost (cx : Ctx) (C : Code) (σ : State) (len : Nat) (st' : St) : SOut → Prop
   | .norm env' => ∃ σ', Reach C σ σ' ∧ σ'.pc = σ.pc + len ∧ σ'.stack = σ.stack ∧ σ'.frames = σ.frames ∧
       σ'.inited = σ.inited ∧ σ'.locals.length = σ.locals.length ∧ VarsRel cx st'.scopes env' σ'.locals σ'.args
-  | .ret v => ∃ σ', Reach C σ σ' ∧ C[σ'.pc]? = some (.ins .ret) ∧ σ'.stack = v.toList ++ σ.stack ∧ σ'.frames = σ.frames
+  | .ret v => ∃ σ', Reach C σ σ' ∧ C[σ'.pc]? = some (.ins .ret) ∧ σ'.stack = v ++ σ.stack ∧ σ'.frames = σ.frames
   | .brk _ _ => False
   | .cont _ _ => False
 
@@ -918,6 +930,10 @@ theorem compS_tail (cx : Ctx) : ∀ (s : Stmt) (lp : LoopCtx) (st : St), st.scop
     show (forSt1 cx lp init st).scopes.tail.tail = st.scopes.tail
     rw [show (forSt1 cx lp init st).scopes.tail = st.scopes from h0]
   | ret e => intro lp st _; cases e <;> simp [compS]
+  | ret2 e1 e2 => intro lp st _; simp [compS]
+  | define2 x y e =>
+    intro lp st hne; simp only [compS]
+    rw [newLocal_tail _ x (newLocal_ne _ y)]; exact newLocal_tail _ y hne
   | brk => intro lp st _; simp [compS]
   | cont => intro lp st _; simp [compS]
   | block body ih =>
@@ -1133,6 +1149,8 @@ theorem stmtOK_succ (P : Prog) (cx : Ctx) (fuel : Nat) (ih : StmtOK P cx fuel) :
       | timeout => rw [hv] at hex; simp at hex
   | exprStmt e => simp [Simple] at hsimp
   | panicS e => simp [Simple] at hsimp
+  | ret2 e1 e2 => simp [Simple] at hsimp
+  | define2 x y e => simp [Simple] at hsimp
   | loop a b c d => simp [Simple] at hsimp
   | brk => simp [Simple] at hsimp
   | cont => simp [Simple] at hsimp
@@ -1705,7 +1723,7 @@ theorem initSlot_step {C : Code} {pc N : Nat} {vs rest : List Val} {np : Nat} (h
 theorem func_correct (P : Prog) (tbl : List (String × Nat × Nat)) (d : FuncDecl) (label nl : Nat) (C : Code) (pc0 : Nat)
     (vs rest : List Val) (v : Val) (fuel : Nat)
     (hsimple : Simple d.body) (hlen : d.params.length = vs.length)
-    (hex : exec fuel P { frames := [[]], args := d.params.zip vs } (.block d.body) = .ok (.ret (some v)))
+    (hex : exec fuel P { frames := [[]], args := d.params.zip vs } (.block d.body) = .ok (.ret [v]))
     (hp : Placed C pc0 (compFunc tbl d label nl).1) (hn : (labelsOf C).Nodup) :
     ∃ n, Asm.run C n { pc := pc0, stack := vs ++ rest, locals := [], args := [], frames := [] } = .halt (v :: rest) := by
   have hcode : (compFunc tbl d label nl).1 =
